@@ -208,10 +208,13 @@ Print Assumptions readers_agree_on_stageA.
    under check when that writes whitespace-only leaf text, of non-blank text under either *)
 Theorem stageB_decidable : forall cfg r, stageBb cfg r = true -> stageB cfg r.
 Proof. exact stageBb_ok. Qed.
+Print Assumptions stageB_decidable.
 Theorem leaf_text_always_ok : forall cfg tx, fix_blank_leaf cfg = true -> leaf_text_ok cfg tx = true.
 Proof. exact leaf_text_ok_fixed. Qed.
+Print Assumptions leaf_text_always_ok.
 Theorem leaf_text_nonblank_ok : forall cfg s, py_nonblank s = true -> leaf_text_ok cfg (Some s) = true.
 Proof. exact leaf_text_ok_nonblank. Qed.
+Print Assumptions leaf_text_nonblank_ok.
 
 (* root a with id = 1&amp; and blank text (dropped) and a blank tail; children:
      bodies with text  a QUOT & < > ]]> TAB LF CR DEL SP LF b ;  l with text of two blanks ;
@@ -254,7 +257,12 @@ Theorem write_read_doc_partial : forall cfg ll d r,
 Proof. exact SerTextP.ser_doc_read. Qed.
 Print Assumptions write_read_doc_partial.
 
-(* 4g. canonicality for stage B documents: writing what was read gives the same bytes again *)
+(* 4g. canonicality for stage B documents: writing what was read gives the same bytes again.
+       Caveat (as in stage A): the tree that is written again carries the reader's [expanded] flag
+       (written as <t></t>).  lxml does not keep that flag — phase 1 recomputes it from
+       ALWAYS_EXPANDED_TAGS — so for a childless element with text "" whose tag is not in that set
+       write-parse-write through lxml is NOT stable (<t></t> becomes <t/>): that is the known finding
+       [empty-string-text] of the harness, outside what these two theorems claim. *)
 Theorem ser_text_canonical_partial : forall cfg r, stageB cfg r -> canonical_values r ->
   forall ll root ind pos, lay_elem cfg ll root ind pos (reescape (norm_tree r)) = lay_elem cfg ll root ind pos r.
 Proof. exact SerTextP.reescape_norm. Qed.
